@@ -9,6 +9,7 @@ import (
 	"runtime"
 	"sort"
 	"strconv"
+	"strings"
 	"sync"
 	"testing"
 	"time"
@@ -85,6 +86,9 @@ func TestFree(t *testing.T) {
 			enc.Encode(c)
 			w.Flush()
 			emitted++
+		}
+		if stats["violations"] >= 3 || (bad && strings.Contains(why, "never")) {
+			break // established; a stuck stage costs a full deadline per round
 		}
 	}
 	enc.Encode(map[string]any{"free_stats": stats})
